@@ -223,6 +223,19 @@ func zzExtraServerInfoPack(p Pack) {
 	pp.Attr = zzMapValue(zzSize(2), 0)
 }
 
+// ProfilePack: the transaction record's optional field map
+func zzExtraProfilePack(p Pack) {
+	zzHookBegin(0)
+	pp := p.(*ProfilePack)
+	// TxRecord.Read replaces an error level of 0 ("not sent" by old agents) by WARNING when
+	// the record carries an error: 0 is a sentinel there, not data (TxRecord itself is C08's)
+	t := pp.Transaction
+	zzvf.Assume(zzvf.Or(t.ErrorLevel != 0, t.Error == 0))
+	if n := zzSize(2); n > 0 {
+		pp.Transaction.Fields = zzMapValue(n, 0)
+	}
+}
+
 // ---------------------------------------------------------------- EventPack
 
 // EventPack.Write stores Uuid/Escalation/Status/Otype under reserved keys INTO p.Attr and
@@ -422,11 +435,19 @@ var zzHandledOS = []int16{OS_LINUX, OS_WINDOW, OS_OSX, OS_HPUX, OS_AIX}
 
 func zzExtraSMBasePack(p Pack) { zzSMBase(p, zzHandledOS[zzvf.Choose(len(zzHandledOS))]) }
 
-// the OS codes the package defines but SMBasePack.Read has no case for
+// (if the reader learns these codes they belong into zzHandledOS above)
+// the OS codes the package defines but SMBasePack.Read has no case for: the reader skips
+// the cpu / core / memory sections the writer always emits. Scalars symbolic, the skipped
+// sections concrete (zero) so that the bytes read at the wrong offsets are concrete.
 //vf: paths=600 deadline=45s t.paths=20000 t.deadline=4m
 func ZZ_C03_SMBasePack_OtherOS() {
 	zzPackRoundTripO("SMBasePack+os-sunos-openbsd-freebsd", func() Pack { return NewSMBasePack() }, false,
-		func(p Pack) { zzSMBase(p, []int16{OS_SUNOS, OS_OPENBSD, OS_FREEBSD}[zzvf.Choose(3)]) }, &zzOpts{norotate: true})
+		func(p Pack) {
+			pp := p.(*SMBasePack)
+			pp.OS = []int16{OS_SUNOS, OS_OPENBSD, OS_FREEBSD}[zzvf.Choose(3)]
+			pp.IP, pp.UpTime, pp.EpochTime = zzvf.Int32(), zzSmallI64(), zzvf.Int64()
+			pp.Cpu, pp.Memory = &CpuLinux{}, &MemoryLinux{}
+		}, &zzOpts{norotate: true, nofill: true})
 }
 
 // component: the CpuOSX write/read pair (SMBasePack.Read itself builds CpuLinux for OS_OSX)
@@ -458,7 +479,9 @@ var zzOKinds = []int32{3, -1}
 // the generic harness: the four meter tables the reader restores. Each of the other
 // sections is exercised by its own harness (own label prefix) with the rest absent, so
 // that a section the reader drops or mis-reads does not drown the other labels:
-// Netstat, Websocket, DbNum (DbNumActive+DbNumIdle), Extra, POidMeter.
+// Netstat, Websocket, DbNum (DbNumActive+DbNumIdle), Extra, POidMeter. The last three are
+// read at the wrong offsets by the current reader; their harnesses leave the scalar
+// members as constructed (nofill) so that what follows the section is concrete.
 func zzCounter(p Pack, section string) {
 	pp := p.(*CounterPack1)
 	pp.Netstat, pp.Websocket = nil, nil // Fill allocated them
@@ -530,25 +553,26 @@ func zzCounter(p Pack, section string) {
 
 func zzExtraCounterPack1(p Pack) { zzCounter(p, "") }
 
-func zzCounterSection(section string) {
+func zzCounterSection(section string, nofill bool) {
+	// thorough: the sections that are read at the right offsets also rotate the Fill focus
 	zzPackRoundTripO("CounterPack1+"+section, func() Pack { return NewCounterPack1() }, true,
-		func(p Pack) { zzCounter(p, section) }, &zzOpts{norotate: true})
+		func(p Pack) { zzCounter(p, section) }, &zzOpts{norotate: nofill || !zzvf.Thorough(), nofill: nofill})
 }
 
-//vf: paths=20000
-func ZZ_C03_CounterPack1_Netstat() { zzCounterSection("Netstat") }
+//vf: paths=20000 t.paths=200000
+func ZZ_C03_CounterPack1_Netstat() { zzCounterSection("Netstat", false) }
 
-//vf: paths=20000
-func ZZ_C03_CounterPack1_Websocket() { zzCounterSection("Websocket") }
-
-//vf: paths=600 deadline=45s t.paths=20000 t.deadline=4m
-func ZZ_C03_CounterPack1_DbNum() { zzCounterSection("DbNum") }
+//vf: paths=20000 t.paths=200000
+func ZZ_C03_CounterPack1_Websocket() { zzCounterSection("Websocket", false) }
 
 //vf: paths=600 deadline=45s t.paths=20000 t.deadline=4m
-func ZZ_C03_CounterPack1_Extra() { zzCounterSection("Extra") }
+func ZZ_C03_CounterPack1_DbNum() { zzCounterSection("DbNum", true) }
 
 //vf: paths=600 deadline=45s t.paths=20000 t.deadline=4m
-func ZZ_C03_CounterPack1_POidMeter() { zzCounterSection("POidMeter") }
+func ZZ_C03_CounterPack1_Extra() { zzCounterSection("Extra", true) }
+
+//vf: paths=600 deadline=45s t.paths=20000 t.deadline=4m
+func ZZ_C03_CounterPack1_POidMeter() { zzCounterSection("POidMeter", true) }
 
 
 // ---------------------------------------------------------------- StatGeneralPack
@@ -713,7 +737,7 @@ func zzFillRecs(n int, rotate bool, mk func() interface{}, after func(interface{
 	var recs []interface{}
 	for i := 0; i < n; i++ {
 		r := mk()
-		if i == 0 && rotate {
+		if i == 0 && (rotate || zzvf.Thorough()) { // thorough: every shape rotates its first record
 			f := zzvf.Choose(zzvf.FillCount(r)+1) - 1
 			zzvf.Fill(r, f, zzvf.Choose(2))
 		} else {
@@ -780,7 +804,7 @@ func zzTimeCountMap(n int) *hmap.IntKeyMap {
 	return m
 }
 
-//vf: paths=60000
+//vf: paths=60000 t.paths=600000 t.deadline=15m
 func ZZ_C03_StatTransactionPack_Records() {
 	name := "StatTransactionPack.Records"
 	p := NewStatTransactionPack()
@@ -813,7 +837,7 @@ func ZZ_C03_StatTransactionPack_Records() {
 	zzSameRecs(b, recs, got, name)
 }
 
-//vf: paths=60000
+//vf: paths=60000 t.paths=600000 t.deadline=15m
 func ZZ_C03_StatTransactionPack1_Records() {
 	name := "StatTransactionPack1.Records"
 	p := NewStatTransactionPack1()
@@ -846,7 +870,7 @@ func ZZ_C03_StatTransactionPack1_Records() {
 	zzSameRecs(b, recs, got, name)
 }
 
-//vf: paths=60000
+//vf: paths=60000 t.paths=600000 t.deadline=15m
 func ZZ_C03_StatServicePack_Records() {
 	name := "StatServicePack.Records"
 	p := NewStatServicePack()
@@ -871,7 +895,7 @@ func ZZ_C03_StatServicePack_Records() {
 	zzSameRecs(b, recs, got, name)
 }
 
-//vf: paths=60000
+//vf: paths=60000 t.paths=600000 t.deadline=15m
 func ZZ_C03_StatSqlPack_Records() {
 	name := "StatSqlPack.Records"
 	p := NewStatSqlPack()
@@ -897,7 +921,7 @@ func ZZ_C03_StatSqlPack_Records() {
 	zzSameRecs(b, recs, got, name)
 }
 
-//vf: paths=60000
+//vf: paths=60000 t.paths=600000 t.deadline=15m
 func ZZ_C03_StatHttpcPack_Records() {
 	name := "StatHttpcPack.Records"
 	p := NewStatHttpcPack()
@@ -923,7 +947,7 @@ func ZZ_C03_StatHttpcPack_Records() {
 	zzSameRecs(b, recs, got, name)
 }
 
-//vf: paths=60000
+//vf: paths=60000 t.paths=600000 t.deadline=15m
 func ZZ_C03_StatErrorPack_Records() {
 	name := "StatErrorPack.Records"
 	p := NewStatErrorPack()
@@ -971,7 +995,7 @@ func ZZ_C03_StatErrorPack_RecordsArray() {
 	zzSameRecs(b, recs, got, name)
 }
 
-//vf: paths=60000
+//vf: paths=60000 t.paths=600000 t.deadline=15m
 func ZZ_C03_SMDownCheckPack_Records() {
 	name := "SMDownCheckPack.Records"
 	p := NewSMDownCheckPack()
@@ -996,7 +1020,7 @@ func ZZ_C03_SMDownCheckPack_Records() {
 
 // ZipPack: inner packs come back in order, unchanged except for the identity fields
 // (project code, object id, kind, node) which are the container's.
-//vf: paths=60000
+//vf: paths=60000 t.paths=600000 t.deadline=15m
 func ZZ_C03_ZipPack_Records() {
 	name := "ZipPack.Records"
 	p := NewZipPack()
@@ -1026,7 +1050,7 @@ func ZZ_C03_ZipPack_Records() {
 
 // LogSinkZipPack, uncompressed form (Status UN_ZIPPED; SetRecords below the zip threshold).
 // The compressed form needs gzip (compressutil.DoZip/UnZip), which the executor cannot run.
-//vf: paths=60000
+//vf: paths=60000 t.paths=600000 t.deadline=15m
 func ZZ_C03_LogSinkZipPack_Records() {
 	name := "LogSinkZipPack.Records"
 	p := NewLogSinkZipPack()
